@@ -39,8 +39,8 @@ def tokenize(s):
 
 class P:
     """recursive descent over tokens; records the qualifiers seen on every pointer cast into obj memory"""
-    def __init__(self, toks, vars_, arr=False):
-        self.t = toks; self.i = 0; self.vars = vars_; self.arr = arr; self.casts = []
+    def __init__(self, toks, vars_, arr=False, ptrs=None):
+        self.t = toks; self.i = 0; self.vars = vars_; self.arr = arr; self.casts = []; self.ptrs = ptrs or {}
 
     def peek(self, k=0):
         return self.t[self.i + k] if self.i + k < len(self.t) else None
@@ -104,9 +104,10 @@ class P:
             self.eat(); return ["off"]
         if re.fullmatch(r"i\d+", tok):
             self.eat(); return ["idx", int(tok[1:])]
-        if tok == "arr" and self.arr:
+        if tok in self.ptrs:        # an int64_t pointer variable into obj memory:  name[k]
             self.eat(); self.eat("["); k = self.eat(); self.eat("]")
-            return ["load", ["add", ["off"], ["const", 8 * int(k)]]]
+            if not k.isdigit(): raise ParseError("non-constant subscript")
+            return ["load", ["add", self.ptrs[tok], ["const", 8 * int(k)]]]
         if tok in self.vars:
             self.eat(); return ["var", self.vars[tok]]
         if tok == "*":      # a load:  *(T*)((char*) obj+E)
@@ -137,16 +138,18 @@ def parse_function(src):
     name = m.group(1)
     if lines[-1].strip() != "}":
         raise ParseError("function does not end with }")
-    body = []; vars_ = {}; casts = []; arr = False
+    body = []; vars_ = {}; casts = []; arr = False; ptrs = {}
     final = None; kind = None; ctype = None
     for ln in lines[1:-1]:
         toks = tokenize(ln)
-        p = P(toks, vars_, arr)
+        p = P(toks, vars_, arr, ptrs)
         if toks[:3] == ["int64_t", "offset", "="] and toks[3:] == ["0", ";"]:
             continue
         if toks[0] == "offset" and toks[1] == "+" and toks[2] == "=":
+            if arr: raise ParseError("offset updated after arr was taken")
             p.i = 3; e = p.sum(); p.eat(";"); body.append(["addto", e])
         elif toks[0] == "offset" and toks[1] == "=":
+            if arr: raise ParseError("offset updated after arr was taken")
             p.i = 2; e = p.sum(); p.eat(";"); body.append(["set", e])
         elif toks[0] == "return":
             p.i = 1
@@ -188,12 +191,22 @@ def parse_function(src):
             nm = p.eat(); p.eat("=")
             if tn != "int64_t":
                 raise ParseError("declaration of type %s" % tn)
-            if n == 1 and nm == "arr":
-                p.eat("("); q2, tn2, n2 = p.typ(); p.eat(")"); p.casts.append([q + q2, tn2, n2])
+            if n == 1:
+                # a pointer variable into the object's memory; its declared type needs the qualifier as much as the cast
+                p.casts.append([q, tn, n])
+                p.eat("("); q2, tn2, n2 = p.typ(); p.eat(")"); p.casts.append([q2, tn2, n2])
                 p.eat("("); e = p.objaddr(); p.eat(")"); p.eat(";")
-                if e != ["off"] or tn2 != "int64_t" or n2 != 1:
+                if tn2 != "int64_t" or n2 != 1:
+                    raise ParseError("pointer variable of another type")
+                if nm == "arr" and e != ["off"]:
                     raise ParseError("arr must point at offset")
-                arr = True
+                if nm == "arr":
+                    ptrs[nm] = e; arr = True          # used by the return that follows (no update of offset may intervene)
+                else:
+                    # the address is fixed at the declaration: keep its VALUE in a fresh variable
+                    vars_["&" + nm] = len(vars_)
+                    body.append(["decl", vars_["&" + nm], e])
+                    ptrs[nm] = ["var", vars_["&" + nm]]
             elif n == 0:
                 e = p.sum(); p.eat(";")
                 vars_[nm] = len(vars_)
@@ -228,9 +241,14 @@ def action_of(cls, name):
     return re.sub(r"\d+$", "", a)
 
 
-def translate_type(t, targets=("raw",)):
+def translate_type(t, targets=("raw",), decl_first=False):
     cls = X.build(t)
     res = {"funcs": [], "errors": []}
+    if decl_first:      # a user may ask for the cffi declarations before generating sources
+        try:
+            cls._gen_c_decl()
+        except BaseException as e:  # noqa
+            res["errors"].append({"path": [], "exc": X.exc_class(e), "msg": "_gen_c_decl: " + repr(e)[:200]})
     conf = default_conf
     for path in cls._gen_data_paths():
         try:
@@ -405,7 +423,7 @@ def main():
     for c in req["cases"]:
         r = {}
         try:
-            r["translate"] = translate_type(c["type"], tuple(c.get("targets", ["raw"])))
+            r["translate"] = translate_type(c["type"], tuple(c.get("targets", ["raw"])), c.get("decl_first", False))
             if c.get("exec"):
                 r["exec"] = exec_type(c["type"], c["value"], c["prep"], c.get("seed", 1))
         except BaseException as e:  # noqa
